@@ -359,6 +359,32 @@ def classify(v: dict) -> str | None:
 	return None
 
 
+def operator_matrix() -> tuple[str, list]:
+	"""Deterministic program: every arithmetic operator over every pair of {int, float, bool} operands, every pair of operators in a
+	flat three-operand chain over int and int/float operands, unary minus, comparisons - each typed by CPython at run time."""
+	ops = ['+', '-', '*', '/', '%']
+	lines = ['def matrix(i: int, j: int, f: float, g: float, b: bool, c: bool) -> int:']
+	n = 0
+	vals = {'int': ['i', 'j'], 'float': ['f', 'g'], 'bool': ['b', 'c']}
+	for o in ops:
+		for lt in vals:
+			for rt in vals:
+				if o == '%' and 'bool' in (lt, rt) and lt != rt:
+					continue
+				n += 1
+				lines.append(f'\tm{n} = {vals[lt][0]} {o} {vals[rt][1]}')
+	for o1 in ops:
+		for o2 in ops:
+			for a, b_, c_ in (('i', 'j', 'i'), ('i', 'j', 'f'), ('f', 'i', 'j'), ('i', 'f', 'j')):
+				n += 1
+				lines.append(f'\tm{n} = {a} {o1} {b_} {o2} {c_}')
+	for e in ('-i', '-f', '-b', 'i < f', 'not i', 'i == j', 'f if b else g', 'i if b else j', 'i * (j / 2)', '(i + j) % 2.5', 'i // 1' if False else 'i * j % 7'):
+		n += 1
+		lines.append(f'\tm{n} = {e}')
+	lines.append('\treturn i')
+	return '\n'.join(lines) + '\n', [['matrix', [[7, 3, 2.5, 1.5, True, True]]]]
+
+
 def split_library(source: str, name: str) -> tuple[str, str, str] | None:
 	"""(library module name, main text, library text): the declarations (enums, generic class, generic functions, classes) move to a
 	library module and the functions import them - types then reach the main module through the import / expand_modules path."""
@@ -392,6 +418,10 @@ def shard(ctx: Ctx, acc: Acc) -> None:
 		for src, entries in WITNESSES:
 			acc.see('generator', 'witness')
 			check_program(acc, {'source': src, 'entries': entries})
+	if ctx.shard == 1 % ctx.nshards:
+		src, entries = operator_matrix()
+		acc.see('generator', 'operator-matrix')
+		check_program(acc, {'source': src, 'entries': entries})
 	for i in range(n):
 		if not ctx.mine(i):
 			continue
